@@ -22,6 +22,12 @@ fn pool(thorough: bool) -> Vec<Key> {
         (5, ""),   // the empty string
         (3, "f1"),
         (2, "f2"),
+        // collisions whose probe chains wrap round the end of the table: home slot capacity-2 at
+        // capacity 8 (and 16 for the second), and the last slot itself
+        (6, "w1"),
+        (14, "w2"),
+        (22, "w3"),
+        (15, "e1"),
     ];
     if thorough {
         v.extend([(12, "e"), (32, "g"), (1, "f3")]);
